@@ -29,6 +29,12 @@ const stepVlen = 2
 // buildIndexState writes an arbitrary index state; shape (chain lengths, fill
 // counts) is forked, hashes / contents are symbolic.
 func buildIndexState(db *DB, r *refMap, level uint8, split uint32, K, maxChain int, freeBuckets int) {
+	buildIndexStateF(db, r, level, split, K, maxChain, freeBuckets, nil)
+}
+
+// fills != nil: fill counts are taken from this list (representatives at the real
+// slotsPerBucket) instead of every value 0..slotsPerBucket.
+func buildIndexStateF(db *DB, r *refMap, level uint8, split uint32, K, maxChain int, freeBuckets int, fills []int) {
 	idx := db.index
 	nb := (uint32(1) << level) + split
 	for idx.numBuckets < nb {
@@ -53,7 +59,18 @@ func buildIndexState(db *DB, r *refMap, level uint8, split uint32, K, maxChain i
 			if room > slotsPerBucket {
 				room = slotsPerBucket
 			}
-			fill := vChoice("fill", room+1)
+			fill := 0
+			if fills == nil {
+				fill = vChoice("fill", room+1)
+			} else {
+				nopt := 0
+				for _, f := range fills {
+					if f <= room {
+						nopt++
+					}
+				}
+				fill = fills[vChoice("fill", nopt)]
+			}
 			for s := 0; s < fill; s++ {
 				i := next
 				next++
@@ -62,6 +79,14 @@ func buildIndexState(db *DB, r *refMap, level uint8, split uint32, K, maxChain i
 				vAssert(err == nil, "step.build.record")
 				h := db.hash(r.keys[i])
 				vAssume(idx.bucketIndex(h) == b)
+				if fills != nil {
+					// real slotsPerBucket: full hashes pairwise distinct (collisions are explored at 2)
+					ok := true
+					for p := 0; p < i; p++ {
+						ok = vAnd(ok, h != db.hash(r.keys[p]))
+					}
+					vAssume(ok)
+				}
 				handles[j].slots[s] = slot{hash: h, segmentID: segID, keySize: uint16(len(r.keys[i])), valueSize: uint32(len(v)), offset: off}
 				r.present[i] = true
 				r.val[i] = v
@@ -212,4 +237,87 @@ func H_C01_step_c3() { hStep(3, 3, 3, 1, false) }
 func H_C01_step_w()  { hStep(4, 2, 5, 0, false) }
 
 func H_C11_step_q() { hStep(4, 3, 3, 0, true) }
-func H_C11_step_t() { hStep(5, 3, 5, 1, true) }
+func H_C11_step_t() { hStep(4, 2, 5, 1, true) }
+
+// hStepReal: the inductive step at the REAL slotsPerBucket (31). Fill counts of
+// the buckets are taken from a list of representatives ({0, 1, 30, 31}); the
+// operation is applied to the key in the first / last used slot of the state, to
+// the 31st and 32nd stored key, or to an absent key. Full hashes are pairwise
+// distinct (collisions are explored at slotsPerBucket = 2). When the operation
+// makes the index split, the hash bit that decides which keys move is fixed by a
+// pattern (otherwise every subset of up to 62 keys would be a path of its own):
+// 0 all stay, 1 all move, 2 alternate, 3 the first 32 stay and the rest move.
+// case = lv + nl*(op + 2*(sel + 5*pat)).
+func hStepReal(nl, maxChain int, fills []int, K int) {
+	c := vCase()
+	lv := stepLevels[c%nl]
+	opc := (c / nl) % 2
+	sel := (c / (2 * nl)) % 5
+	pat := c / (10 * nl)
+	db, err := Open("stepreal", smallOpts(fs.Mem, 40, 10+8+stepVlen))
+	vAssert(err == nil, "step.open")
+	if err != nil {
+		return
+	}
+	r := newRef(K+1, 8)
+	buildIndexStateF(db, r, uint8(lv[0]), lv[1], K, maxChain, 0, fills)
+	stored := int(db.index.numKeys)
+	r.n = stored + 1 // exactly one absent key
+	k := stored
+	switch sel {
+	case 0:
+		k = 0
+	case 1:
+		k = stored - 1
+	case 2:
+		k = 30
+	case 3:
+		k = 31
+	}
+	if k < 0 || (sel < 4 && k >= stored) {
+		return
+	}
+	hk := db.hash(r.keys[stored])
+	ok := true
+	for i := 0; i < stored; i++ {
+		h := db.hash(r.keys[i])
+		ok = vAnd(ok, h != hk)
+		bit := (h >> lv[0]) & 1
+		switch pat {
+		case 0:
+			ok = vAnd(ok, bit == 0)
+		case 1:
+			ok = vAnd(ok, bit == 1)
+		case 2:
+			ok = vAnd(ok, bit == uint32(i%2))
+		case 3:
+			if i < 32 {
+				ok = vAnd(ok, bit == 0)
+			} else {
+				ok = vAnd(ok, bit == 1)
+			}
+		}
+	}
+	vAssume(ok)
+	nbBefore := db.index.numBuckets
+	applyOp(db, r, opc, k, stepVlen, "C01.real")
+	checkReads(db, r, "C01.real")
+	vIndexInvariant(db, r, "C01.real")
+	checkItems(db, r, "C01.real")
+	if db.index.numBuckets > nbBefore {
+		vCover("C01.real.split")
+		if db.index.overflow.size > int64(headerSize)+int64(bucketSize)*int64(maxChain-1) {
+			vCover("C01.real.split-rebuilt-a-chain-with-overflow")
+		}
+	}
+	if stored >= 31 {
+		vCover("C01.real.full-bucket")
+	}
+	vCover("C01.real.done")
+}
+
+// one main bucket (level 0), chains of <= 2 buckets
+func H_C01_step_real() { hStepReal(1, 2, []int{0, 1, 30, 31}, 64) }
+
+// quick: buckets with 1 or 31 slots, <= 33 keys (31+1, 1+31, 31, 1+1, 1)
+func H_C01_step_real_q() { hStepReal(1, 2, []int{1, 31}, 33) }
